@@ -63,4 +63,14 @@ F64Parse(s)          == s      \* Go strconv.ParseFloat(s, 64) of digits with an
 StrIndexAny(s, i, c) == 0      \* smallest j >= i with s[j] among the chars of c, StrLen(s)+1 when none
 StrFromBytes(seq)    == ""     \* the byte string with these byte values
 \* ---- C14 block - end
+\* ---- GrolLib block (extension functions of the reference semantics) - begin
+F64Floor(a) == a      F64Ceil(a) == a      F64Trunc(a) == a      F64Sqrt(a) == a
+F64TruncToI64(a) == a   \* safecast.Truncate[int64]: decimal string, "" when NaN / out of range
+F64RoundToI64(a) == a   \* safecast.Round[int64] (half away from zero), "" when NaN / out of range
+I64ParseBase0(s) == s   \* strconv.ParseInt(s, 0, 64) (no underscores), "" when it fails
+StrRunes(s)      == <<>>  \* the runes of s as UTF-8 strings (invalid bytes -> U+FFFD)
+StrRuneValues(s) == <<>>  \* the runes of s as code points
+StrSplit(s, sep) == <<>>  \* Go strings.Split
+StrTrim(s, cutset, mode) == s  \* Go strings.Trim (0) / TrimLeft (1) / TrimRight (2)
+\* ---- GrolLib block - end
 =============================================================================
